@@ -16,6 +16,12 @@ verus! {
 //@ item src/binary/read.rs | struct ReadScope
 //@ item src/binary/read.rs | struct ReadCtxt | derive=
 
+pub mod size {
+    // src/size.rs (mem::size_of is not callable in Verus; values are Rust language facts, listed as an assumption in R_unchecked)
+    pub const U8: usize = 1; pub const I8: usize = 1; pub const U16: usize = 2; pub const I16: usize = 2; pub const U24: usize = 3;
+    pub const U32: usize = 4; pub const I32: usize = 4; pub const U64: usize = 8; pub const I64: usize = 8;
+}
+
 // ---- specification vocabulary -------------------------------------------------
 pub open spec fn be16(s: Seq<u8>, i: int) -> int { s[i] as int * 0x100 + s[i + 1] as int }
 pub open spec fn be24(s: Seq<u8>, i: int) -> int { s[i] as int * 0x10000 + s[i + 1] as int * 0x100 + s[i + 2] as int }
